@@ -245,11 +245,14 @@ class Components:
             name = _getName(component)
 
         reg = self._utility_registrations.get((provided, name))
-        if reg is not None:
+        while reg is not None:
             if reg[:2] == (component, info):
                 # already registered
                 return
             self.unregisterUtility(reg[0], provided, name)
+            # A subscriber of the Unregistered event may have registered
+            # something for this name: look again before overwriting it.
+            reg = self._utility_registrations.get((provided, name))
 
         self._utility_registrations_cache.registerUtility(
             provided, name, component, info, factory)
